@@ -34,6 +34,49 @@ concat(axis=1), concat(axis=0, interleave_partitions), map_partitions
 (default, clear_divisions, enforce_metadata=False, row-dropping function),
 reset_index, sort_values, rolling / cumsum / shift / diff.
 
+Family "sequence" (several operations on ONE base frame in ONE process)
+-----------------------------------------------------------------------
+dask keeps state between operations: the module-level ``divisions_lru`` of ``dask_expr/_shuffle.py`` (quantile
+divisions, per-partition mins / maxes and the ``presorted`` verdict per (column expression name, npartitions,
+ascending, partition_size, upsample)), ``mem_usages_lru`` of ``_repartition.py``, and the expression singletons
+(an equal-token rebuilt collection IS the earlier expression object, with its cached properties and whatever
+earlier operations wrote into its operands).  A case of this family builds one base frame whose key columns
+have the shapes
+
+  asc / desc      globally ascending / descending (= reversed), so also across partitions without overlap
+  ascblk / descblk  ascending / descending ACROSS partitions without overlap, shuffled inside each partition
+  rand            a permutation;   overlap: ascending except that the two rows around the first partition
+                  boundary are swapped;   dups: ascending with duplicates, also across boundaries
+
+(key dtype int / float / datetime / str; RangeIndex with known divisions or a shuffled index with unknown
+ones), then issues 2..8 operations one after another on the SAME collection or on an equal-token rebuilt copy:
+``sort_values`` (ascending / descending, ``npartitions=``), ``set_index`` (plain, ``npartitions=``,
+``divisions=``, ``sorted=True``, ``sort=False``, ``upsample=``, ``drop=False``, ``shuffle_method="tasks"``),
+``shuffle``, ``repartition``, ``set_index(..).repartition(..)``, ``set_index(..).loc[a:b]``, an index merge of two
+``set_index`` results (both with quantile divisions), ``drop_duplicates`` / ``unique`` with ``split_out``.  Each
+result is first looked at the way a user would (``.npartitions``, ``.divisions``, ``.head()``, ``.persist()``,
+``.optimize()``, ``repr``, ``.compute()``, ``len``, or not at all) and then checked: npartitions / graph
+partition count vs divisions, divisions ascending, every partition inside its interval, dask's documented
+cache-free recomputation ``r.clear_divisions().compute_current_divisions()`` (per-partition min / max straight
+from the data; raises when partitions are not in index order) inside the reported divisions, and the values
+against the same pandas program (sort_values: the key column in pandas' order and the rows as a multiset; the
+others as multisets / ordered where dask keeps the order).  None of these oracles reads dask's caches.
+Complete sub-space: every ORDERED PAIR of 12 operations on the focus column, for every column shape (quick: 5
+shapes, one of two evaluation modes per pair; thorough: 7 shapes x 3 modes), second operation alternately on the
+same collection and on an equal-token copy; then seeded random sequences.
+
+Cache discipline: at the START of every sequence case ``divisions_lru`` and ``mem_usages_lru`` are cleared
+(``dask.dataframe.dask_expr._shuffle.divisions_lru.clear()``), so that cases are independent of what the shard
+ran before and replay alone; NOTHING is cleared between the steps of a case -- state leaking from one step
+into the next is what the family observes.  (Expression singletons cannot be cleared; every case uses its own
+data, so their names differ.)  Counters ``seq_steps_filling_divisions_cache`` /
+``seq_steps_served_from_divisions_cache`` watch the cache itself: if it goes away, the floors fail.
+
+When a step fails, the same step is run ALONE on a copy of the frame with one more column (all expression
+names and cache keys differ): failing there too, the finding belongs to the operation and is labelled
+``sequence:<op[variant]>:<symptom>`` (or ``optimize:...`` as below); passing there, it is
+``sequence:<op>:depends-on-earlier-operations:<symptom>`` and the message lists the earlier operations.
+
 Labels
 ------
 ``<step>:<variant>:<view>:<symptom>`` for findings that belong to the step that produced the stage.  When
@@ -70,6 +113,21 @@ Calibration
   had 2; blamed first on the Merge, it is the filter pushed below the quantile set_index.
 * nothing is demanded of frames with unknown divisions (``sort=False``, ``reset_index``, ``sort_values``,
   ``clear_divisions``): they are counted (``stages_unknown_divisions``).
+* false alarm corrected: the row-dropping ``map_partitions`` function kept ``df.iloc[::2]``.  After a shuffle the
+  order of rows with equal index labels differs between two computations of the same graph (disk shuffle,
+  ``uuid`` key names), so other rows survived when the next stage was computed than when this stage was
+  observed, and a ``set_index(divisions=[min..max of the observed column])`` built from the observation no
+  longer covered the data (``set_index:divisions:graph:index-below-division``, thorough tier, about every
+  second run of the same case).  The function now drops every second row of the partition in a canonical order.
+* family "sequence": ``set_index(col, sorted=True)`` only on a column that IS ascending (anything else is a
+  usage error); merges only between two different unique key columns; ``drop_duplicates(subset=[col])`` on a
+  column with duplicates is compared by its kept keys only (which of the duplicate rows survives a shuffle is
+  not promised); in this family values are compared although C41 states divisions only, because the mirror
+  image of a stale ``presorted`` verdict is a skipped sort (right divisions, wrong row order).
+* genuine, fixed by fixes_ready/C41_08: ``len(ddf)`` wrote the partition lengths into the operands of the
+  FromPandas expression, so expressions derived afterwards got other tokens; quantile divisions cached before
+  the ``len`` and recomputed (other sampling seed) after it then disagree
+  (``sequence:merge:depends-on-earlier-operations:index-outside-division-interval``).
 """
 from __future__ import annotations
 
@@ -82,37 +140,57 @@ RULE = ("case = (index kind, rows, from_pandas parameters, 0-4 construction step
         "and on ddf.partitions[i].  Complete sub-space first: all sorted indexes of length 1..6 over a 3-value "
         "alphabet (ints; thorough also strings and floats) x from_pandas npartitions 1..4 and chunksize 1..6, each "
         "followed by repartition(npartitions=1..5).  non-trivial = at least one checked stage with known divisions "
-        "and >= 2 partitions; distinct = distinct case descriptions")
+        "and >= 2 partitions; distinct = distinct case descriptions.  Family 'sequence': one base frame with key "
+        "columns sorted ascending / descending across partitions, reversed, shuffled inside partitions, random, with an "
+        "overlap, with duplicates; 2-8 division-computing operations (sort_values asc/desc, set_index in 8 forms, "
+        "shuffle, repartition, index merge of two set_index results, drop_duplicates/unique(split_out)) issued one "
+        "after another on the same collection or an equal-token copy, each evaluated one of 9 ways and checked "
+        "(divisions, partitions, cache-free current divisions, values vs pandas); caches cleared at case start only; "
+        "complete sub-space: all ordered pairs of 12 operations per column shape")
 ASSUMPTIONS = [
     "pandas defines min/max/ordering of index values; partitions are what to_delayed()/partitions[i] compute",
     "dask.dataframe is imported through the pyarrow import stub (pandas-backed strings)",
 ]
-BUDGET = {"quick": 90, "thorough": 600}
+BUDGET = {"quick": 200, "thorough": 900}
 FLOORS = {
-    "quick": {"evaluations": 1600, "distinct_nontrivial": 1150,
-              "counters": {"stages": 5500, "stages_known_divisions": 4800, "partitions_checked": 11500,
+    "quick": {"evaluations": 2050, "distinct_nontrivial": 1400,
+              "counters": {"stages": 6900, "stages_known_divisions": 5500, "partitions_checked": 11500,
                            "accessor_views": 3400, "known:from_pandas": 1400, "known:repartition": 2100,
                            "known:loc": 270, "known:set_index": 150, "known:align": 150, "known:blockwise": 190,
-                           "known:filter": 95, "known:map_partitions": 85, "known:concat0": 70, "known:window": 150},
-              "sets": {"known_stage_variants": 35}, "max_skipped_fraction": 0.1},
-    "thorough": {"evaluations": 11000, "distinct_nontrivial": 7500,
-                 "counters": {"stages": 34000, "stages_known_divisions": 27000, "partitions_checked": 80000,
+                           "known:filter": 95, "known:map_partitions": 85, "known:concat0": 70, "known:window": 150,
+                           # family "sequence" (measured on seed 0: 1140 / 3179 / 1782 / 3179 / 1750 / 1592 / 1543 / 438)
+                           "seq_cases": 510, "seq_steps": 1430, "seq_steps_known_divisions": 800, "known:sequence": 800,
+                           "seq_values_compared": 1430, "seq_cache_free_views": 780,
+                           "seq_steps_after_different_op_on_same_column": 700,
+                           "seq_steps_filling_divisions_cache": 690, "seq_steps_served_from_divisions_cache": 195},
+              "sets": {"known_stage_variants": 35, "seq_variant_x_shape": 65}, "max_skipped_fraction": 0.1},
+    "thorough": {"evaluations": 13700, "distinct_nontrivial": 9300,
+                 "counters": {"stages": 43000, "stages_known_divisions": 32000, "partitions_checked": 80000,
                               "accessor_views": 24000, "known:from_pandas": 9900, "known:repartition": 6500,
                               "known:loc": 2400, "known:set_index": 1200, "known:align": 1000,
                               "known:blockwise": 1700, "known:filter": 850, "known:map_partitions": 700,
-                              "known:concat0": 650, "known:window": 1500},
-                 "sets": {"known_stage_variants": 30}, "max_skipped_fraction": 0.1},
+                              "known:concat0": 650, "known:window": 1500,
+                              # family "sequence" (measured: 6024 / 18954 / 10430 / 18954 / 10235 / 9829 / 9103 / 2802)
+                              "seq_cases": 2700, "seq_steps": 8500, "seq_steps_known_divisions": 4700,
+                              "known:sequence": 4700, "seq_values_compared": 8500, "seq_cache_free_views": 4600,
+                              "seq_steps_after_different_op_on_same_column": 4400,
+                              "seq_steps_filling_divisions_cache": 4100, "seq_steps_served_from_divisions_cache": 1250},
+                 "sets": {"known_stage_variants": 30, "seq_variant_x_shape": 65}, "max_skipped_fraction": 0.1},
 }
 EXHAUSTIVE_SPACE = {
     "quick": "all 83 sorted int indexes of length 1..6 over a 3-value alphabet x from_pandas(npartitions 1..4, "
-             "chunksize 1..6) x {base, repartition(npartitions=1..5)}",
+             "chunksize 1..6) x {base, repartition(npartitions=1..5)}; all 144 ordered pairs of 12 division-computing "
+             "operations on one base frame x 5 key-column shapes",
     "thorough": "all 83 sorted indexes of length 1..6 over a 3-value alphabet (int, str and float values) x "
-                "from_pandas(npartitions 1..4, chunksize 1..6) x {base, repartition(npartitions=1..5)}",
+                "from_pandas(npartitions 1..4, chunksize 1..6) x {base, repartition(npartitions=1..5)}; all 144 ordered "
+                "pairs of 12 division-computing operations on one base frame x 7 key-column shapes x 3 evaluation modes",
 }
 CLAIM = ("On every frame produced by the generated pipelines (and on every intermediate stage) that reported known "
          "divisions, the partitions computed from the graph and through .partitions[i] were compared with the "
-         "reported divisions and partition count.  Held means: no untruthful divisions among the stages observed; "
-         "stages with unknown divisions are counted, not judged.")
+         "reported divisions and partition count; and every result of the operation sequences issued on one base "
+         "frame in one process (state of dask's divisions cache carried from step to step) had ascending divisions "
+         "bounding its partitions and the values of the same pandas program.  Held means: no untruthful divisions "
+         "among the stages observed; stages with unknown divisions are counted, not judged.")
 LEVEL_NOTE = "trusts pandas ordering/min/max of index values and the sync scheduler"
 TECHNIQUE = ("runtime monitoring: divisions post-condition (npartitions, per-partition index bounds) on every stage of "
              "random construction pipelines, two partition views, complete small space + random")
@@ -262,7 +340,16 @@ def _mp_add(df):
 
 
 def _mp_drop_rows(df):
-    return df.iloc[::2]
+    """drops every second row -- of the partition's rows in a canonical order: the order of rows with EQUAL index
+    labels after a shuffle is not defined (it changes from one computation of the same graph to the next), and
+    the steps after this one are built from what the stage held when it was observed"""
+    try:
+        by = list(df.columns) if hasattr(df, "columns") else None
+        canon = df.sort_values(by) if by is not None else df.sort_values()
+        canon = canon.sort_index(kind="stable")
+    except Exception:  # noqa: BLE001
+        canon = df
+    return canon.iloc[::2]
 
 
 def _mp_ident(df):
@@ -913,7 +1000,7 @@ PAIR_OPS = (
 def _seq_cases(tier, seed):
     rng = random.Random(seed * 7919 + 4141)
     # complete sub-space: every ordered pair of PAIR_OPS on the focus column of every shape
-    evs = ("npartitions", "head") if tier == "quick" else ("npartitions", "head", "persist", "compute")
+    evs = ("npartitions", "head") if tier == "quick" else ("npartitions", "head", "persist")
     for shape in (("asc", "desc", "descblk", "rand", "dups") if tier == "quick" else SEQ_SHAPES):
         for i, a in enumerate(PAIR_OPS):
             for j, b in enumerate(PAIR_OPS):
@@ -923,7 +1010,7 @@ def _seq_cases(tier, seed):
                     yield {"space": "exhaustive", "family": "sequence", "nrows": 12, "npart": 3, "kdtype": "int",
                            "index": "range", "focus": shape,
                            "steps": [dict(a, ev=ev, on="base"), dict(b, ev="divisions", on="base" if (i + j) % 2 else "copy")]}
-    n = 420 if tier == "quick" else 4200
+    n = 420 if tier == "quick" else 3000
     for _ in range(n):
         nrows = rng.choice((6, 9, 12, 12, 16, 20, 30, rng.randint(4, 40)))
         npart = rng.choice((2, 3, 3, 4, 5))
